@@ -1,7 +1,7 @@
 (* Property C04: storage is transparent.  Pinned so far: the codec layer (packing of 2/4/9-state
    symbols, LEB128) and the time table; the refinement theorem for the whole store (load_encode)
    is not closed - see MANIFEST level_claimed. *)
-From WV Require Import Model.Base Model.Bits Model.Leb128 Proofs.BitsProofs Proofs.LebProofs.
+From WV Require Import Model.Base Model.Bits Model.Leb128 Model.WaveMem Proofs.BitsProofs Proofs.LebProofs Proofs.WaveMemProofs.
 Open Scope N_scope.
 
 (* write_n_state followed by the symbol extraction of n_state_to_bit_string is the identity for
@@ -22,6 +22,16 @@ Check write_render_wider :
 Check leb_roundtrip :
   forall v rest, v < 2 ^ 64 -> leb_read (leb_write v ++ rest) = Some (v, rest).
 
+(* the per-signal meta-data word survives encode/decode; the rounded length is never too small *)
+Check metadata_roundtrip_uncompressed :
+  forall mx, meta_decode (meta_encode (mk_meta Uncompressed mx)) = Ok (mk_meta Uncompressed mx).
+Check metadata_roundtrip_compressed :
+  forall mx n, n < 4294967264 ->
+  meta_decode (meta_encode (meta_compressed mx n)) = Ok (meta_compressed mx n) /\
+  match em_comp (meta_compressed mx n) with Compressed len => n <= len | Uncompressed => False end.
+
+Print Assumptions metadata_roundtrip_uncompressed.
+Print Assumptions metadata_roundtrip_compressed.
 Print Assumptions pack_unpack.
 Print Assumptions packed_length.
 Print Assumptions write_render_wider.
